@@ -90,7 +90,7 @@ def fam_norm(ctx, box, which):
     a = _vec3(ctx, 'a', box)
     A = Vector(*[ctx.lib(x) for x in a])
     aa = a[0] * a[0] + a[1] * a[1] + a[2] * a[2]
-    ctx.assume(aa >= F(1, 10 ** 6))
+    ctx.assume(aa >= F(1, 10 ** 12))        # |v| >= 1e-6, the smallest magnitude the property claims
     if which == 'length':
         st, l = call(A.length)
         if st == 'raise':
